@@ -552,3 +552,73 @@ Definition route_op (r : route) (cur : list Z) (q : treq) : res op :=
   | TGetAt ext off =>
       Ok (ORead false None off (match route_shape r ext with [] => scalar_count cur off | sh => sh end))
   end.
+
+(** * Further public routes *)
+
+(** H5Dwrite from a memory type that differs from the array's: the elements are converted first *)
+Definition write_slab_as (ro : bool) (a : arr) (mem : dtype) (off cnt : list Z) (vals : list V) : res arr :=
+  if negb (conv_ok mem (a_ty a)) then
+    bind (slab_sel (a_shape a) off cnt) (fun _ => Err h5error)
+  else bind (mapM (conv_val mem (a_ty a)) vals) (fun vs => write_slab ro a off cnt vs).
+
+(** THE line to flip once the create-and-fill template removes the array again when the write fails
+    (notes/proposed-fixes/C01-create-fill-rollback.patch) *)
+Definition create_fill_rolls_back : bool := false.
+
+(** template Block::createDataArray(name, type, const T &data, DataType data_type, compression):
+    element type [elem] of the container, stored type [stored] (data_type, or the element type for
+    DataType::Nothing), shape = Hydra shape of the container; create, then
+    da.setData(data, offset 0..0).  Result: the array that exists afterwards (if any) and the outcome. *)
+Definition create_fill (rollback : bool) (elem stored : dtype) (c : compression) (r : route) (ext : list Z) (vals : list V)
+  : option arr * res unit :=
+  let sh := route_shape r ext in
+  if Nat.eqb (List.length sh) 0 || (32 <? List.length sh)%nat then (None, Err "nix::InvalidRank"%string)
+  else
+    let a0 := create stored c sh in
+    match write_slab_as false a0 elem (repeat 0 (List.length sh)) sh vals with
+    | Ok a1 => (Some a1, Ok tt)
+    | Err e => (if rollback then None else Some a0, Err e)
+    | UB w => (if rollback then None else Some a0, UB w)
+    end.
+
+(** nix::NDArray::sub2index + the bound check of get / set: the position is the dot product with the
+    row-major strides; only the LINEAR position is checked *)
+Definition nd_index (sh sub : list Z) : res Z :=
+  if negb (Nat.eqb (List.length sub) (List.length sh)) then Err "std::out_of_range"%string
+  else if (0 <=? ravel sh sub) && (ravel sh sub <? prod sh) then Ok (ravel sh sub)
+  else Err "nix::OutOfBounds"%string.
+
+(** nix::string_to_data_type: case-insensitive table lookup; the answer is printed with
+    data_type_to_string *)
+Definition lower_ascii (c : Ascii.ascii) : Ascii.ascii :=
+  let n := Ascii.nat_of_ascii c in
+  if (65 <=? n)%nat && (n <=? 90)%nat then Ascii.ascii_of_nat (n + 32) else c.
+
+Fixpoint lower (s : string) : string :=
+  match s with
+  | EmptyString => EmptyString
+  | String c r => String (lower_ascii c) (lower r)
+  end.
+
+Definition dtype_table : list (string * string) :=
+  [ ("bool", "Bool"); ("char", "Char"); ("float", "Float"); ("single", "Float"); ("double", "Double");
+    ("int8", "Int8"); ("int16", "Int16"); ("int32", "Int32"); ("int64", "Int64");
+    ("uint8", "UInt8"); ("uint16", "UInt16"); ("uint32", "UInt32"); ("uint64", "UInt64");
+    ("string", "String"); ("opaque", "Opaque"); ("nothing", "Nothing") ]%string.
+
+Fixpoint assoc_str (k : string) (l : list (string * string)) : option string :=
+  match l with
+  | [] => None
+  | (a, b) :: r => if String.eqb a k then Some b else assoc_str k r
+  end.
+
+Definition string_to_dtype_name (s : string) : res string :=
+  match assoc_str (lower s) dtype_table with
+  | Some n => Ok n
+  | None => Err "std::invalid_argument"%string
+  end.
+
+(** the names data_type_to_string prints *)
+Definition dtype_names : list string :=
+  [ "Bool"; "Char"; "Float"; "Double"; "Int8"; "Int16"; "Int32"; "Int64"; "UInt8"; "UInt16"; "UInt32"; "UInt64";
+    "String"; "Nothing"; "Opaque" ]%string.
